@@ -15,7 +15,7 @@ func c08Cfg() *DeclCfg {
 		MaxDepth: 4, MaxFan: 4, PCmds: 75, Types: types, OptsMin: 1, OptsMax: 3, SubGroupsMax: 1, NestMax: 1,
 		PNamespace: 25, PShortOnly: 20, PLongOnly: 20, PClash: 45,
 		PPos: 15, PosMax: 2, PRest: 30, PExec: 30, PByTag: 50, PSubOptional: 35, PAliases: 60, PHiddenCmd: 10,
-		ParserOpts: []flags.Options{0, flags.PassDoubleDash, flags.HelpFlag | flags.PassDoubleDash, flags.HelpFlag},
+		ParserOpts: []flags.Options{0, flags.PassDoubleDash, flags.HelpFlag | flags.PassDoubleDash, flags.HelpFlag, flags.PassAfterNonOption, flags.PassAfterNonOption | flags.PassDoubleDash},
 		PosTypes:   []TypeSpec{{K: KString}},
 	}
 }
@@ -86,7 +86,7 @@ func c08Run(c *Ctx) {
 	if r.Chance(1, 3) {
 		target = d.Cmds[r.Intn(len(d.Cmds))]
 	}
-	sc := GenScenario(r, d, &ScenCfg{MaxItems: 10, POcc: 55, PCluster: 8, PPos: 7, PCmd: 25, PTerm: 10, PQuoted: 5, Target: target})
+	sc := GenScenario(r, d, &ScenCfg{MaxItems: 10, POcc: 55, PCluster: 8, PPos: 7, PCmd: 25, PTerm: 10, PQuoted: 5, Target: target, PSiblingWord: 25, PCmdWordAsPos: 10})
 	args := sc.Args()
 	c.Case(caseOf(sc, args, nil))
 	if sc.Exp.Unspec != "" {
@@ -184,12 +184,9 @@ func c08Run(c *Ctx) {
 		it := sc.Items[i]
 		// destinations: any later index before the pass-through region at which the referent is unchanged and
 		// no occurrence of the same option(s) is crossed
-		end := len(sc.Items)
-		for j, x := range sc.Items {
-			if x.Kind == ITerm || x.Kind == IRaw {
-				end = j
-				break
-			}
+		end := passIndex(d, sc.Items)
+		if i >= end {
+			break
 		}
 		mine := map[*Opt]bool{}
 		if it.Opt != nil {
@@ -281,6 +278,13 @@ func c08Diagnosis(c *Ctx, d *Decl, sc *Scenario) {
 		word = mutateWord(r, ch.Name, []string{"a", "c", "0", "x"})
 		if len(ch.Subs) > 0 && r.Bool() {
 			word = ch.Subs[0].Name // a grandchild's name is not a command here
+		} else if cur.Parent != nil && r.Bool() {
+			// a sibling of the current command (or the current command itself) is not one of its sub-commands
+			sib := cur.Parent.Subs[r.Intn(len(cur.Parent.Subs))]
+			word = sib.Name
+			if len(sib.Aliases) > 0 && r.Bool() {
+				word = sib.Aliases[0]
+			}
 		}
 		if scope.Cmds[word] != nil || optionShaped(word) || word == "--" || word == "" {
 			word = "zz" + word
